@@ -407,3 +407,48 @@ pub fn live_bytes() -> i64 {
 pub fn total_allocs() -> u64 {
     TOTAL_ALLOCS.load(Ordering::SeqCst)
 }
+
+// ---------------------------------------------------------------------------
+// Child-process supervision
+// ---------------------------------------------------------------------------
+
+/// Natively a double free / use-after-free / double panic in the code under test kills the
+/// process, which no in-process capture survives.
+///
+/// Re-executes this binary as a child with the same arguments. A normal exit is passed through
+/// (the child wrote its own fragments and verdict lines); death by SIGABRT/SIGSEGV/SIGBUS/SIGILL
+/// is a violation (memory corruption in the code under test); anything else is inconclusive.
+pub fn supervise(args: &vcore::Args, ids: &[&str]) -> std::process::ExitCode {
+    use std::process::ExitCode;
+    use vcore::{Monitor, finish_all_code, json};
+    use std::os::unix::process::ExitStatusExt;
+    let exe = std::env::current_exe().expect("current_exe");
+    let mut argv: Vec<String> = std::env::args().skip(1).collect();
+    argv.extend(["--set".into(), "child=1".into()]);
+    let status = std::process::Command::new(exe).args(&argv).status().expect("spawn child");
+    if let Some(code) = status.code() {
+        return ExitCode::from(code as u8);
+    }
+    let sig = status.signal().unwrap_or(0);
+    let mut ms = vec![];
+    for id in ids {
+        if !args.props.is_empty() && args.wants(id) {
+            let mut m = Monitor::new(id, "supervised child process running the concurrent workload").min(0);
+            m.eval();
+            match sig {
+                libc::SIGABRT | libc::SIGSEGV | libc::SIGBUS | libc::SIGILL => m.violation(
+                    &format!("{}-workload-process-killed-by-signal-{sig}", id.to_lowercase()),
+                    json!({"signal": sig, "meaning": "6=SIGABRT (allocator detected double free / corruption), 11=SIGSEGV, 7=SIGBUS", "args": argv, "note": "schedule-dependent: replay re-runs the seeded workload"}),
+                ),
+                _ => m.inconclusive(&format!("workload child killed by signal {sig}")),
+            }
+            ms.push(m);
+        }
+    }
+    if ms.is_empty() {
+        eprintln!("workload child killed by signal {sig}");
+        return ExitCode::from(2);
+    }
+    ExitCode::from(finish_all_code(args, ms) as u8)
+}
+
